@@ -290,6 +290,22 @@ class Interp:
                 elif name == 'remove_block':
                     names = list(work.blocks)
                     work.remove_block(names[op['x'] % len(names)] if names else '__none__')
+                elif name == 'reattach_same_name':
+                    # a circuit attached under a name, the block dropped again (its gates stay), the same circuit attached
+                    # under the same name once more: refused, or the result is a well-formed circuit
+                    labs = self._labels(work)
+                    base = [labs[(op['x'] + q) % len(labs)] for q in range(2)] if labs else []
+                    other = build.build({'inputs': ['rx', 'ry'], 'outputs': ['ro'] if op.get('marked', True) else [],
+                                         'gates': [['rx', 'INPUT', []], ['ry', 'INPUT', []], ['rt', 'OR', ['rx', 'ry']], ['ro', 'NOT', ['rt']]]})
+                    bn = op.get('name') or 'RB'
+                    conn = base if op.get('full', True) else base[:1]
+                    work.connect_circuit(other, list(conn), ['rx', 'ry'][:len(conn)], name=bn)
+                    if op.get('drop') == 'remove_gate':
+                        work.remove_gate(f'{bn}@ro')
+                    else:
+                        work.delete_block(bn)
+                    work.connect_circuit(other, list(conn), ['rx', 'ry'][:len(conn)], name=bn)
+                    kind = 'connect_left_like'
                 elif name == 'block_with_hidden_output':
                     # a block one of whose members is a circuit output without being a declared output of the block, then the
                     # block (and its gates) removed again
@@ -507,6 +523,11 @@ def make_machine(tier, hooks):
             else:
                 self._do({'op': 'make_block', 'c': c, 'xs': xs, 'ins': ins, 'auto_inputs': auto, 'name': name})
 
+        @rule(c=I, x=I, name=st.sampled_from(['RB', 'N', 'M']), full=st.booleans(), marked=st.booleans(),
+              drop=st.sampled_from(['delete_block', 'remove_gate']))
+        def reattach_same_name(self, c, x, name, full, marked, drop):
+            self._do({'op': 'reattach_same_name', 'c': c, 'x': x, 'name': name, 'full': full, 'marked': marked, 'drop': drop})
+
         @rule(c=I, x=I, y=I, both=st.booleans(), remove=st.sampled_from([True, True, False]))
         def block_with_hidden_output(self, c, x, y, both, remove):
             self._do({'op': 'block_with_hidden_output', 'c': c, 'x': x, 'y': y, 'both': both, 'remove': remove})
@@ -548,7 +569,7 @@ SPEC = {
              'list, acyclic, both top-sorts, block labels, copy equal + independent) and agreement of evaluate / '
              'evaluate_full_circuit with the reference run. Non-trivial: history with >=3 adopted mutations incl. one of '
              'right-connect / rename / replace_subcircuit / into_bench / remove_gate / remove_block; distinct by operation log.'
-             ' Added during the build: refused calls of several kinds per mutator (repeated / non-input / extra labels for set_inputs, repeated replaced-side connector pairs, several inputs per replace_inputs list in an order of their own), a rule for replacements whose outputs feed each other, a rule for a connector pair listed twice among all gates, a rule that builds and removes a block one of whose members is a circuit output the block does not declare, a copy.copy taken just before every third call that has to stay as it was, and the other circuits of the pool compared around every call.'),
+             ' Added during the build: refused calls of several kinds per mutator (repeated / non-input / extra labels for set_inputs, repeated replaced-side connector pairs, several inputs per replace_inputs list in an order of their own), a rule for replacements whose outputs feed each other, a rule for a connector pair listed twice among all gates, a rule that attaches a circuit under a name, drops the block and attaches it under that name again, a rule that builds and removes a block one of whose members is a circuit output the block does not declare, a copy.copy taken just before every third call that has to stay as it was, and the other circuits of the pool compared around every call.'),
     'assumptions': ['non-CirboError exceptions of a call are counted, not judged (the statement is conditional on normal return)'],
     'subs': [Sub('histories', None, check_history, {'quick': 3200, 'thorough': 192000}, stateful=make_machine)],
     'required_classes': {'histories': ['k:connect_right_like', 'k:connect_left_like', 'k:rename_gate', 'k:replace_subcircuit',
